@@ -137,6 +137,11 @@ def extra_shapes(seed):
         # a setting whose value contains '=' and ';', a trailer with more than one '>' and '<'
         "%s (1.0-8) unstable; urgency=low, vcs=https://h/?p=x;a=b" % p,
         " -- A \"-->\" B <x> <a@b.c>  Mon, 01 Jan 2024 00:00:00 +0000",
+        # a key repeated with the very same value (verbatim, and with another capitalisation of the key): as much a
+        # repeated key as one with a conflicting value
+        "%s (1.0-9) unstable; urgency=low, urgency=low" % p,
+        "%s (1.0-9) unstable; urgency=low, binary-only=yes, Binary-Only=yes" % p,
+        "%s (1.0-9) unstable; urgency=low, x-k=1, X-K=1, x-k=2" % p,
         # a date the trailer syntax accepts although no calendar knows it (the parser keeps the text)
         " -- A B <a@b.c>  Lun, 31 Janvier 2024 25:61:00 +9999",
     ]
